@@ -27,7 +27,8 @@ Inductive decl :=
 | DGroup (fs : list (str * decl))                     (* --g.x style dotted keys: no action, no group entry *)
 | DData (req : bool) (fs : list (str * decl))         (* dataclass-typed argument: group registered, fields expanded *)
 | DClass (req : bool) (cls : list (str * list (str * decl)))  (* subclass type: class name -> parameters *)
-| DList (fs : list (str * decl)).                     (* List[dataclass] *)
+| DList (fs : list (str * decl))                      (* List[dataclass] *)
+| DOpt (fs : list (str * decl)).                      (* Optional[dataclass] = None, a parameter that comes from a signature *)
 
 Definition args := list (str * decl).
 Record subs := { s_req : bool; s_dest : str; s_map : list (str * args) }.
@@ -167,6 +168,8 @@ Section Walk.
                 | Some (DClass r c) =>
                     [{| e_branch := match w with CDict _ | CStr _ => true | _ => false end;
                         e_key := pre ++ [k]; e_res := chk (pre ++ [k]) (DClass r c) w |}]
+                | Some (DOpt fs') =>
+                    [{| e_branch := is_dict w; e_key := pre ++ [k]; e_res := chk (pre ++ [k]) (DOpt fs') w |}]
                 | Some d =>
                     [{| e_branch := false; e_key := pre ++ [k]; e_res := chk (pre ++ [k]) d w |}]
                 end) ++ go t
@@ -221,6 +224,12 @@ Section Levels.
           | CList items =>
               check_items (fun i x => if is_dict x then pushr (map K key ++ [I i]) (nested fs x)
                                       else Err (EBadValue [] key)) 0 items
+          | _ => Err (EBadValue [] key)
+          end
+      | DOpt fs =>
+          (* Union[dataclass, None]: the mapping is parse_object of the per-dataclass parser *)
+          match v with
+          | CDict _ => pushr (map K key) (nested fs v)
           | _ => Err (EBadValue [] key)
           end
       | DClass _ cls =>
